@@ -120,6 +120,13 @@ def correspond(ctx):
         msg = arc_oracle(p, d)
         if msg:
             ctx.fail("arc discretisation: " + msg, problem=p)
+        if p["features"][0].startswith("periodic") or k % 5 == 0:
+            # the mesh written inside a femmcli session with entities left selected must be this (validated) mesh, byte for byte
+            from props import c02
+            msg = c02.session_mesh(ctx, k, p)
+            feats["session-with-selection"] = feats.get("session-with-selection", 0) + 1
+            if msg:
+                ctx.fail("mesh of a scripted session: " + msg, problem=p)
         if len(d["T"]) > (1500 if ctx.quick() else 8000):
             continue
         e, info = meshlib.to_coq(d)
